@@ -63,6 +63,7 @@ func init() {
 			ast      astNode
 			verdicts []bool
 			refused  string
+			example  string
 		}
 		bases := map[string]*baseInfo{}
 		readLines(openIn(*casesPath), func(line []byte) {
@@ -133,6 +134,11 @@ func init() {
 				for _, d := range gapProbes {
 					b.verdicts = append(b.verdicts, s.Validate(jdoc.New("d", d)) == nil)
 				}
+				if ex, err := s.Example(); err == nil {
+					b.example = string(ex)
+				} else {
+					b.example = "error: " + err.Error()
+				}
 				bases[c.Base] = b
 			}
 			bad := func(where string) {
@@ -159,6 +165,18 @@ func init() {
 			}
 			if d := diffAST("", b.ast, barFree(convAST(a))); d != "" {
 				bad("AST differs from the compact spelling's: " + d)
+				return
+			}
+			// the example has no blanks, comments or annotations in it: every spelling gives the same bytes
+			exs := ""
+			if ex, err := s.Example(); err == nil {
+				exs = string(ex)
+			} else {
+				exs = "error: " + err.Error()
+			}
+			evals++
+			if exs != b.example {
+				bad(fmt.Sprintf("Example() = %s, under the compact spelling %s", exs, b.example))
 				return
 			}
 			for i, d := range gapProbes {
